@@ -96,7 +96,7 @@ def specDense (S : Sc α) (kind : String) (j : Json) (ins : List (Arr α)) : Exc
       | some t => (es.getD t ⟨[], []⟩).get 0 (idx.drop gshape.length))
   | _ => throw s!"unknown spec kind {kind}"
 
-def runStep (S : Sc α) (cy : Bool) (env : Array (Option (Arr α))) (j : Json) : Except String (StepOut α) := do
+def runStep (S : Sc α) (cy same : Bool) (env : Array (Option (Arr α))) (j : Json) : Except String (StepOut α) := do
   let op ← getStr (← field j "op")
   let inIds ← natList (fieldD j "in" (Json.arr #[]))
   let insOpt := inIds.map (fun i => (env.getD i none))
@@ -126,26 +126,26 @@ def runStep (S : Sc α) (cy : Bool) (env : Array (Option (Arr α))) (j : Json) :
   | "isort_qdata" => return arrOut S a.isortQdata
   | "iadd_prefactor_other" =>
     let p ← S.sc.parse (← field j "p")
-    match Arr.iaddPrefactorOther cy a.copy p b with
+    match Arr.iaddPrefactorOtherNamed same cy a.copy p b with
     | .ok (r, b') => return arrOut S r [] [(idB, b')]
     | .error e => return errOut e
   | "binary_blockwise" =>
     let f ← getStr (← field j "f")
     let fn : α → α → α := if f == "add" then (· + ·) else if f == "sub" then (fun x y => x + -y) else (· * ·)
-    match Arr.ibinaryBlockwise fn a.copy b with
+    match Arr.ibinaryBlockwiseNamed same fn a.copy b with
     | .ok (r, b') => return arrOut S r [] [(idB, b')]
     | .error e => return errOut e
   | "take_slice" => return ofExcept S (a.takeSlice (← intList (← field j "indices")) (← axList (← field j "axes")))
   | "add_trivial_leg" =>
-    return ofExcept S (a.addTrivialLeg (← getInt (← field j "axis")) (← labelOfJson (fieldD j "label" Json.null))
+    return ofExcept S (a.addTrivialLegChecked (← getInt (← field j "axis")) (← labelOfJson (fieldD j "label" Json.null))
       (← getInt (← field j "qconj")))
   | "squeeze" =>
     match a.squeeze (← optField j "axes" axList) with
     | .ok v => return valOut S v
     | .error e => return errOut e
   | "getitem_int" =>
-    match a.getItemInt (← intList (← field j "inds")) with
-    | .ok x => return { json := [("scalar", S.sc.emit x)] }
+    match a.getItemIntPartial (← intList (← field j "inds")) with
+    | .ok v => return valOut S v
     | .error e => return errOut e
   | "scale_axis" =>
     return ofExcept S (a.iscaleAxis (← listOf S.sc.parse (← field j "s")) (← axOfJson (← field j "axis")))
@@ -153,7 +153,7 @@ def runStep (S : Sc α) (cy : Bool) (env : Array (Option (Arr α))) (j : Json) :
     return ofExcept S (a.iproject (← listOf maskOfJson (← field j "masks")) (← axList (← field j "axes")))
   | "permute" => return ofExcept S (a.permute (← natList (← field j "perm")) (← axOfJson (← field j "axis")))
   | "sort_legcharge" =>
-    match a.sortLegcharge (← boolList (← field j "sort")) (← boolList (← field j "bunch")) with
+    match a.sortLegchargeOrCopy (← boolList (← field j "sort")) (← boolList (← field j "bunch")) with
     | .ok (perms, cp) => return arrOut S cp [("perms", ofList ofNatList perms)]
     | .error e => return errOut e
   | "gauge_total_charge" =>
@@ -164,12 +164,12 @@ def runStep (S : Sc α) (cy : Bool) (env : Array (Option (Arr α))) (j : Json) :
     let na ← optField j "new_axes" intList
     let pipes ← optField j "pipes" (listOf (optOf alegOfJson))
     let qc ← listOf (optOf getInt) (fieldD j "qconj" (Json.arr #[Json.null]))
-    return ofExcept S (a.combineLegs cl na pipes qc)
+    return ofExcept S (a.combineLegsChecked cl na pipes qc)
   | "split_legs" => return ofExcept S (a.splitLegs (← optField j "axes" axList))
-  | "concatenate" => return ofExcept S (Arr.concatenate ins (← axOfJson (← field j "axis")))
-  | "outer" => return ofExcept S (Arr.outer a b)
+  | "concatenate" => return ofExcept S (Arr.concatenateChecked same ins (← axOfJson (← field j "axis")))
+  | "outer" => return ofExcept S (Arr.outerNamed same a b)
   | "inner" =>
-    match Arr.inner S.star a b (← innerAxesOfJson (← field j "axes")) (← getBool (← field j "do_conj")) with
+    match Arr.innerNamed same S.star a b (← innerAxesOfJson (← field j "axes")) (← getBool (← field j "do_conj")) with
     | .ok x => return { json := [("scalar", S.sc.emit x)] }
     | .error e => return errOut e
   | "trace" =>
@@ -177,7 +177,7 @@ def runStep (S : Sc α) (cy : Bool) (env : Array (Option (Arr α))) (j : Json) :
     | .ok v => return valOut S v
     | .error e => return errOut e
   | "tensordot" =>
-    match Arr.tensordot cy a b (← dotAxesOfJson (← field j "axes")) with
+    match Arr.tensordotNamed same cy a b (← dotAxesOfJson (← field j "axes")) with
     | .ok v => return valOut S v
     | .error e => return errOut e
   | "norm" =>
@@ -205,24 +205,43 @@ def runStep (S : Sc α) (cy : Bool) (env : Array (Option (Arr α))) (j : Json) :
     return { val := inj, json := [("dense", denseToJson S.sc d)], upd }
   | _ => throw s!"unknown op {op}"
 
+/-- charge names of a tensor given as JSON (`"names"` is optional: missing names are empty) -/
+def namesOfJson (j : Json) : Except String (List String) := do
+  match ← optField j "names" (listOf getStr) with
+  | some ns => return ns
+  | none => return ((← optField j "mods" natList).getD []).map (fun _ => "")
+
 def runCase (S : Sc α) (j : Json) : Except String Json := do
   let cy := (← getStr (fieldD j "kernel" (Json.str "py"))) == "cy"
-  let operands ← listOf (arrOfJson S.sc) (← field j "operands")
+  let opsJson ← getArr (← field j "operands")
+  let operands ← opsJson.mapM (arrOfJson S.sc)
   let steps ← getArr (← field j "steps")
   let mut env : Array (Option (Arr α)) := (operands.map some).toArray
+  -- charge names (`ChargeInfo.names`) travel next to the values: the result of an operation has the ChargeInfo of
+  -- its first operand, a constructor / injected result brings its own
+  let mut names : Array (List String) := (← opsJson.mapM namesOfJson).toArray
   let mut outs : Array Json := #[]
   for st in steps do
     let inIds ← natList (fieldD st "in" (Json.arr #[]))
-    let r ← match runStep S cy env st with
+    let inNames := inIds.map (fun i => names.getD i [])
+    let firstNames := inNames.headD []
+    let same := inNames.all (fun n => namesCompatible firstNames n)
+    let r ← match runStep S cy same env st with
       | .ok r => pure r
       | .error e => pure ({ json := [("driver_error", Json.str e)] } : StepOut α)
     for (i, v) in r.upd do
       env := env.setIfInBounds i (some v)
     env := env.push r.val
+    let own ← match (st.getObjVal? "inject").toOption with
+      | some inj => if inj.isNull then pure none else some <$> namesOfJson inj
+      | none => if inIds.isEmpty then some <$> namesOfJson st else pure none
+    let resNames := own.getD firstNames
+    names := names.push resNames
     let insFlags := inIds.map (fun i => match env.getD i none with
       | some x => Json.bool x.qdataSorted
       | none => Json.null)
-    outs := outs.push (obj (r.json ++ [("ins", Json.arr insFlags.toArray)]))
+    let nm := if r.val.isSome then [("names", ofList Json.str resNames)] else []
+    outs := outs.push (obj (r.json ++ nm ++ [("ins", Json.arr insFlags.toArray)]))
   return obj [("steps", Json.arr outs)]
 
 def handle (j : Json) : Except String Json := do
